@@ -192,6 +192,32 @@ def rule_fraction_clamp(ctx, crate, rule="R-FRACTION-CLAMP"):
                 reg = b.edge_region((sb, z[0]))
                 stored = {v for v, bbs in vals.items() if set(bbs) & reg}
                 zero_ok = stored == {"1.0"}
+    if not zero_ok:
+        # the same through comparison facts (`if len == 0 { 1.0 } else if .. { } else { pos / len }`): the division runs only where
+        # len != 0 is established, and a block that runs only under len == 0 produces the constant 1.0 (and no other constant)
+        from . import c13
+        divs0 = [(i, s) for i, j, s in b.assigns() if s["rv"]["k"] == "bin" and s["rv"]["op"] == "Div"]
+        roots = set()
+        for i, s_ in divs0:
+            o = s_["rv"]["b"]
+            for _ in range(4):
+                l_ = operand_local(o)
+                ds = [d for d in b.defs().get(l_, ()) if d["kind"] == "assign"] if l_ is not None else []
+                if len(ds) == 1 and ds[0]["rv"]["k"] in ("cast", "use"):
+                    o = ds[0]["rv"]["op"]
+                else:
+                    break
+            r_ = c13.root(b, o)
+            if r_:
+                roots.add(r_)
+        if len(roots) == 1:
+            r_ = next(iter(roots))
+            ne0 = {c13.norm_fact("Ne", r_, ("c", "0")), c13.norm_fact("Gt", r_, ("c", "0"))}
+            eq0 = c13.norm_fact("Eq", r_, ("c", "0"))
+            guarded = all(c13.edge_facts(b, i) & ne0 for i, s_ in divs0)
+            ones = [bb for bb in vals.get("1.0", []) if eq0 in c13.edge_facts(b, bb)]
+            others = [v for v, bbs in vals.items() if v != "1.0" and any(eq0 in c13.edge_facts(b, bb) for bb in bbs)]
+            zero_ok = bool(divs0) and guarded and bool(ones) and not others
     ctx.check(zero_ok, rule, "zero-length-is-1", b.name, K.fn_loc(b), "zero length yields the constant 1.0", "zero length does not yield 1.0 (division by zero -> NaN/inf reaches the renderer)", cfg)
     # the division is pos / len of the live values
     divs = [(i, s) for i, j, s in b.assigns() if s["rv"]["k"] == "bin" and s["rv"]["op"] == "Div"]
